@@ -20,7 +20,7 @@ RULE = ("(i) grid geometry through the real GridSearch.fit with an exact learner
         "records the relabelled targets/weights it was given (y = 1[w>0], weights proportional to |w|). non-trivial = always")
 ASSUMPTIONS = ["hypothesis class = all functions of one discrete feature; exact learners in mc/stubs.py",
                "for BoundedGroupLoss the best-response statement is 'minimises lambda.gamma' (the objective lies in the span of the group losses)"]
-CLASSES = ["geometry", "missing_event_group_pair", "four_groups", "bgl_geometry", "faithfulness", "bgl_faithfulness", "relabel_observed",
+CLASSES = ["ratio_bound_selection", "geometry", "missing_event_group_pair", "four_groups", "bgl_geometry", "faithfulness", "bgl_faithfulness", "relabel_observed",
            "tie_in_selection"]
 
 GEOM_X = [0, 1, 0, 1, 0, 1, 1, 0, 2, 2, 1, 0]
@@ -30,7 +30,7 @@ GEOM_GROUPS = {"g2": "aabbaabbabab", "g3": "aabbccabcabc", "g4": "abcdabcdabcd",
 
 def bounds(tier, seed):
     return {"grid_sizes": "2..60" if tier != "quick" else [2, 3, 5, 8, 13, 21, 34, 60], "grid_limits": [0.5, 2.0, 3.7],
-            "faithfulness_n": "3, and 4 for EqualizedOdds/BoundedGroupLoss (thorough: 3..5, all moments, 3 groups, 3 feature values)", "grid_sizes_faith": [2, 5, 11], "constraint_weights": [0, 0.3, 0.5, 1]}
+            "faithfulness_n": "3, and 4 for EqualizedOdds/BoundedGroupLoss (thorough: 3..5, all moments, 3 groups, 3 feature values)", "grid_sizes_faith": [2, 5, 11], "constraint_weights": [0, 0.3, 0.5, 0.9, 1], "ratio_bound_moments": ["DemographicParity(ratio_bound=0.8)", "EqualizedOdds(ratio_bound=0.8)"]}
 
 
 def _datasets(k, G, ns):
@@ -70,6 +70,8 @@ def _mk_moment(mname):
 
     if mname == "BoundedGroupLoss":
         return red.BoundedGroupLoss(red.SquareLoss(0, 1), upper_bound=0.1)
+    if mname.endswith("@ratio"):
+        return getattr(red, mname.split("@")[0])(ratio_bound=0.8)
     return getattr(red, mname)()
 
 
@@ -161,19 +163,23 @@ def _faith(case):
             _Recorder.log.append((np.asarray(y_).astype(int).tolist(), np.asarray(sample_weight, float).tolist()))
             return super().fit(X_, y_, sample_weight=sample_weight)
 
-    for mname in ("DemographicParity", "EqualizedOdds", "TruePositiveRateParity", "ErrorRateParity", "BoundedGroupLoss"):
+    for mname in ("DemographicParity", "EqualizedOdds", "TruePositiveRateParity", "ErrorRateParity", "BoundedGroupLoss", "DemographicParity@ratio", "EqualizedOdds@ratio"):
         bgl = mname == "BoundedGroupLoss"
-        if case["tier"] == "quick" and n >= 4 and mname not in ("EqualizedOdds", "BoundedGroupLoss"):
-            continue  # quick: n=4 only for the two-event moment and the loss moment
+        ratio = 0.8 if mname.endswith("@ratio") else 1.0
+        base = mname.split("@")[0]
+        if case["tier"] == "quick" and (mname == "EqualizedOdds@ratio" or (n >= 4 and mname not in ("EqualizedOdds", "BoundedGroupLoss"))):
+            continue  # quick: n=4 only for the two-event moment and the loss moment; one ratio-bound moment at n=3
         if bgl:
             out["classes"].add("bgl_faithfulness")
             yy = [0.25 + 0.5 * v for v in y]
         else:
             yy = y
         for gs in (2, 5, 11):
-            for cw in (0.0, 0.3, 0.5, 1.0):
+            for cw in (0.0, 0.3, 0.5, 0.9, 1.0):
                 if cw not in (0.0, 0.5) and gs != 5 and case["tier"] == "quick":
                     continue
+                if ratio != 1.0 and cw in (0.0, 0.3):
+                    continue  # ratio-bound moments: the signed gammas are not mirror images; exercised with high constraint weights
                 out["evals"] += 1
                 _Recorder.log = []
                 est = ExactRegressor(LEVELS) if bgl else RecLearner()
@@ -181,7 +187,7 @@ def _faith(case):
                 ctx = "%s grid_size=%d constraint_weight=%r rows=%r" % (mname, gs, cw, rows)
                 snip = ("import numpy as np, fairlearn.reductions as r; from mc.stubs import ExactLearner; rows=%r; X=np.array([[q[0]] for q in rows],float); "
                         "g=r.GridSearch(ExactLearner(), r.%s(), grid_size=%d, constraint_weight=%r); g.fit(X,[q[2] for q in rows],sensitive_features=[q[1] for q in rows]); "
-                        "print(g.best_idx_, g.objectives_, g.gammas_)" % (rows, mname if not bgl else "DemographicParity", gs, cw))
+                        "print(g.best_idx_, g.objectives_, g.gammas_)" % (rows, (base + ("(ratio_bound=0.8)" if ratio != 1.0 else "()"))[:-2] if not bgl else "DemographicParity", gs, cw))
                 try:
                     g.fit(X, np.array(yy), sensitive_features=np.array(a))
                 except Exception as e:
@@ -205,7 +211,7 @@ def _faith(case):
                         obj = sum((yy[j] - p[j]) ** 2 for j in range(n)) / n
                         lamd = {k: float(lam[k]) for k in rg}
                     else:
-                        rg = ref_gamma(mname, 1.0, y, a, None, p)
+                        rg = ref_gamma(base, ratio, y, a, None, p)
                         obj = err_rate(y, p)
                         lamd = {k: float(lam[k]) for k in rg} if set(rg) == set(tuple(t) for t in lam.index) else None
                     got = g.gammas_[col]
@@ -222,11 +228,13 @@ def _faith(case):
                         best = min(sum(lamd[grp] * sum((yy[j] - hp[j]) ** 2 for j in range(n) if a[j] == grp) / a.count(grp) for grp in rg) for hp in HRP)
                     else:
                         val = obj + sum(lamd[k] * rg[k] for k in rg)
-                        best = min(err_rate(y, hp) + sum(lamd[k] * v for k, v in ref_gamma(mname, 1.0, y, a, None, hp).items()) for hp in HP)
+                        best = min(err_rate(y, hp) + sum(lamd[k] * v for k, v in ref_gamma(base, ratio, y, a, None, hp).items()) for hp in HP)
                     if val > best + 1e-9:
                         V.append(viol("C09:best-response", "column %d (lambda=%r): predictor has value %r, best in class %r (%s)" % (
                             i, {str(k): v for k, v in lamd.items()}, val, best, ctx), best, val, snip))
                     losses.append((1 - cw) * obj + cw * max(rg.values()))
+                    if ratio != 1.0:
+                        out["classes"].add("ratio_bound_selection")
                     # relabel / reweight actually handed to the learner
                     if not bgl:
                         import pandas as pd
